@@ -48,6 +48,12 @@ def atomic_call(tu, n, counter_ids):
     return ('other', name)
 
 
+def init_exprs(tu, decl):
+    """children of a field / variable declaration that are expressions (documentation comments and attributes attached to
+    the declaration are children too and must not be mistaken for its initialiser)"""
+    return [k for k in tu.kids(decl) if not (k.get('kind', '').endswith('Comment') or k.get('kind', '').endswith('Attr'))]
+
+
 def call_mo(tu, n, index):
     """explicit memory-order argument (as the integer value of std::memory_order, a string) of a call, None if defaulted,
     '?' if not a constant.  relaxed=0 consume=1 acquire=2 release=3 acq_rel=4 seq_cst=5"""
